@@ -485,6 +485,11 @@ class Result:
         ev = dict(property_id=self.pid, tier=self.tier, seed=self.seed, level='proof',
                   coverage=self.cov, assumptions=self.assumptions,
                   wall_s=round(time.time() - self.t0, 2), violations=nviol)
+        if not self.cov.get('discharged'):
+            # nothing was discharged on this run (broken build): the proof-level keys do not
+            # apply; the exploration counts below remain
+            ev['coverage'].pop('discharged', None)
+            ev['coverage']['discharged_none'] = True
         if self.notes:
             ev['coverage']['notes'] = self.notes
         ev['coverage']['known_findings_seen'] = sorted(seen_known)
